@@ -5,9 +5,9 @@
      parse_expression md no_defects fuel d (render 0 r e ++ stop) = Val (ast_of e, stop).
    PROVED below: the same statement for the sub-surface [proved e = true] (identifiers, qualified
    identifiers, all literals, placeholders, every binary operator of the ladder, NOT, IS [NOT] NULL,
-   [NOT] BETWEEN, [NOT] LIKE / ILIKE, e::type with a plain type name, any parentheses).  Omitted productions
-   (covered by the model-vs-code correspondence and by the prescribed-tree oracle, see design/C03.md):
-   [NOT] IN (list), function calls, CASE, CAST(e AS t), tuples, type names with arguments.
+   [NOT] BETWEEN, [NOT] LIKE / ILIKE, [NOT] IN (list), e::type and CAST(e AS type) with a plain type name, any
+   parentheses).  Omitted productions (covered by the model-vs-code correspondence and by the prescribed-tree
+   oracle, see design/C03.md): function calls, CASE, tuples, type names with arguments.
    Statement-level theorems (parse_render_select ...) do not exist yet: SELECT / DML / DDL are covered by the
    prescribed-tree oracle only. *)
 From Coq Require Import List String Arith.
